@@ -69,3 +69,13 @@ Proof. intros m theta c p q Hiso. split; [apply placed_rigid; exact Hiso|apply p
 Theorem C05_sweep_frames_are_isometries : forall path closed k,
   fst (frame_pts path closed k) <> snd (frame_pts path closed k) -> isometry (sweep_frame path closed k).
 Proof. exact sweep_frame_isometry. Qed.
+
+(* ---- the volume of a linear extrusion is profile area times height ----
+   vol6 = six times the signed volume enclosed by the faces (each face fanned from its first vertex; counter-clockwise
+   seen from outside counts positive). With a complete top cap: vol6 = 3 h area2(profile), area2 = twice the signed
+   (shoelace) area, so the signed volume is h * (signed area); for the clockwise profiles the library expects it is
+   negative under this convention, i.e. the faces wind clockwise seen from outside and enclose h * |area|. *)
+From SCAD Require Import Geom.Poly Geom.Mesh_proofs Geom.Volume_proofs.
+Theorem C05_linear_extrude_volume : forall (pts : list (pt2 R)) (h : R) ph, linear_extrude pts h = Some ph ->
+  complete (enumerate pts) -> vol6 (fst ph) (snd ph) = 3 * h * Poly.area2 pts.
+Proof. exact linear_extrude_volume. Qed.
